@@ -1,6 +1,11 @@
 """pyvc.run -- per-property driver: generate obligations from /repo's current
 source, discharge them, replay counter-models, write evidence.
 
+Two phases, both on a process pool:
+  1. per case (function under contract): symbolic execution of the real AST,
+     obligations exported as SMT-LIB text (ground-instantiated and full form)
+  2. per obligation: z3 (ground, then full), cvc5 on `unknown`
+
 exit 0 held / 1 VIOLATION / 2 undecided / 3 checker failure"""
 import argparse
 import importlib
@@ -20,9 +25,7 @@ from pyvc.core import Unsupported, EngineError, CV, simp, zbool  # noqa: E402
 from pyvc.heap import reset_alloc, Class, Func, Property, StaticMethod, ClassMethod, Native, BoundMethod, Obj  # noqa: E402
 from pyvc.interp import Ctx, Interp, Env, Raised, PathEnd, Obligation  # noqa: E402
 from pyvc.loader import Loader  # noqa: E402
-from pyvc import solve, natives  # noqa: E402
-
-_loader_cache = {}
+from pyvc import solve, natives, vc  # noqa: E402
 
 
 class CachedLoader(Loader):
@@ -75,73 +78,15 @@ def spec_env(I, mod, names, specs):
     return env
 
 
-def model_to_dict(model, syms):
-    out = {}
-    if model is None:
-        return out
-    for k, t in syms.items():
-        try:
-            if isinstance(t, CV):
-                t = t.term
-            if isinstance(t, (int, bool, str)) or t is None:
-                out[k] = t
-                continue
-            if not isinstance(t, z3.ExprRef):
-                continue
-            v = model.eval(t, model_completion=True)
-            if z3.is_int_value(v):
-                out[k] = v.as_long()
-            elif z3.is_true(v):
-                out[k] = True
-            elif z3.is_false(v):
-                out[k] = False
-            elif z3.is_string_value(v):
-                out[k] = v.as_string()
-            elif z3.is_bv_value(v):
-                out[k] = v.as_long()
-            elif z3.is_rational_value(v):
-                out[k] = str(v.as_fraction())
-            else:
-                out[k] = str(v)
-        except Exception as e:       # model evaluation is best effort
-            out[k] = f"<{e}>"
-    return out
-
-
-def all_consts(ob, syms):
-    """named symbols of the case plus every uninterpreted constant occurring
-    in the obligation"""
-    out = {}
-    seen = set()
-
-    def walk(t):
-        if t.get_id() in seen:
-            return
-        seen.add(t.get_id())
-        if z3.is_const(t) and t.decl().kind() == z3.Z3_OP_UNINTERPRETED:
-            out[str(t)] = t
-        for c in t.children():
-            walk(c)
-    try:
-        for h in ob.hyps:
-            walk(h)
-        walk(ob.goal)
-    except Exception:
-        pass
-    out.update(syms)
-    return out
-
-
-def run_case(case, tier="quick", src_root=None):
-    """returns a JSON-serialisable record with every obligation of the case"""
+def run_case(case, tier="quick", src_root=None, findings=()):
+    """phase 1: returns a picklable record; rec['jobs'] holds the VCs as text"""
     t_start = time.time()
     cx = Ctx(case.name)
     loader = CachedLoader(src_root)
     rec = {"case": case.name, "target": case.target, "variant": case.variant,
-           "obligations": [], "status": "ok", "error": None, "paths": 0,
+           "jobs": [], "obligations": [], "status": "ok", "error": None, "paths": 0,
            "level": case.level, "note": case.note}
     syms_by_path = {}
-    state = {"I": None}
 
     def restore():
         cx.counter.clear()
@@ -153,7 +98,6 @@ def run_case(case, tier="quick", src_root=None):
     def thunk():
         cx.path_id = len(syms_by_path)
         I = Interp(cx, loader)
-        state["I"] = I
         I.overflow_checks = case.overflow
         I.extra_libs = dict(case.libs)
         f, owner, mod = resolve_target(I, case.target)
@@ -210,7 +154,6 @@ def run_case(case, tier="quick", src_root=None):
                         cx.oblige(f"{base}::on[{e}].ensures[{label}]", out, "exceptional-post")
                 break
             return ("raise", ename)
-        # normal return
         for e, cond in case.raises.items():
             c = I.eval_spec(cond, senv)
             cx.oblige(f"{base}::must_raise[{e}]", natives.neg(c), "exceptional-post")
@@ -226,7 +169,6 @@ def run_case(case, tier="quick", src_root=None):
             else:
                 g = I.eval_spec(ens, senv)
                 cx.oblige(f"{base}::ensures[{label}]", g, "post")
-        # canary: `ensures False` must be refutable on a normal path
         ob = Obligation(f"{base}::canary", "canary", cx.pc, z3.BoolVal(False), cx.path_id, expect="sat")
         cx.obligations.append(ob)
         return ("ok", None)
@@ -239,114 +181,215 @@ def run_case(case, tier="quick", src_root=None):
         rec["status"] = "unsupported"
         rec["error"] = str(e)
         rec["trace"] = traceback.format_exc()[-1500:]
-        results = []
     except Exception as e:      # engine failure: checker crash, never a verdict
         rec["status"] = "crash"
         rec["error"] = f"{type(e).__name__}: {e}"
         rec["trace"] = traceback.format_exc()[-3000:]
-        results = []
     rec["gen_s"] = round(time.time() - t_start, 3)
     rec["trusted"] = sorted(cx.trusted | natives.TRUSTED)
     rec["sources"] = {k: v[0] for k, v in loader.sources.items()}
-    rec["dropped"] = {k: v.get("dropped", []) for k, v in loader.dropped.items() if v}
-    # discharge
+    rec["dropped"] = {k: sorted(set(v.get("dropped", []))) for k, v in loader.dropped.items() if v}
+    rec["trivial_safety_checks"] = getattr(cx, "trivial", 0)
+    if rec["status"] == "ok":
+        try:
+            rec["jobs"] = make_jobs(case, cx, syms_by_path, tier, findings, rec)
+        except Exception as e:
+            rec["status"] = "crash"
+            rec["error"] = f"VC export: {type(e).__name__}: {e}"
+            rec["trace"] = traceback.format_exc()[-3000:]
+    rec["prep_s"] = round(time.time() - t_start, 3)
+    return rec
+
+
+def make_jobs(case, cx, syms_by_path, tier, findings, rec):
     timeout = case.timeout or (10.0 if tier == "quick" else 60.0)
-    # canaries / probes: keep only one per distinct name (first path), they
-    # guard against vacuity, not correctness
-    seen = set()
-    n_sample = 0
-    seen_vc = set()
+    jobs = []
+    seen_probe, seen_vc = set(), set()
     rec["duplicate_vcs"] = 0
     for ob in cx.obligations:
         if ob.expect == "sat":
-            if ob.name in seen:
+            if ob.name in seen_probe:
                 continue
-            seen.add(ob.name)
-        else:
-            # the same VC reached along several paths (shared prefix) is one obligation
-            key = (ob.name, ob.goal.get_id(), tuple(h.get_id() for h in ob.hyps))
-            if key in seen_vc:
-                rec["duplicate_vcs"] += 1
-                continue
-            seen_vc.add(key)
-        solve.discharge(ob, timeout)
-        o = {"name": ob.name, "kind": ob.kind, "path": ob.path, "verdict": ob.verdict,
-             "backend": ob.backend, "time": round(ob.time, 4), "info": ob.info,
-             "reason": ob.reason}
-        if ob.verdict == "refuted" and ob.expect == "unsat":
-            o["model"] = model_to_dict(ob.model, all_consts(ob, syms_by_path.get(ob.path, {})))
-            o["goal"] = str(ob.goal)[:400]
-        if ob.expect == "unsat" and n_sample < 2 and ob.verdict == "proved":
-            try:
-                o["smt2"] = solve.smt2_of(ob.hyps, z3.Not(ob.goal))[:3000]
-                n_sample += 1
-            except Exception:
-                pass
-        o["_ob"] = None
-        rec["obligations"].append(o)
-    # known-finding classification needs the live terms: done here
-    rec["_live"] = None
-    rec["wall_s"] = round(time.time() - t_start, 3)
-    return rec, cx, syms_by_path
+            seen_probe.add(ob.name)
+            jobs.append({"case": case.name, "name": ob.name, "kind": ob.kind, "path": ob.path, "expect": "sat",
+                         "info": ob.info, "timeout": timeout, "ground": None,
+                         "full": vc.to_smt2([h for h in ob.hyps if not vc.has_q(h)], z3.BoolVal(True))})
+            continue
+        key = (ob.name, ob.goal.get_id(), tuple(h.get_id() for h in ob.hyps))
+        if key in seen_vc:
+            rec["duplicate_vcs"] += 1
+            continue
+        seen_vc.add(key)
+        syms = syms_by_path.get(ob.path, {})
+        alias = []
+        for k, t in syms.items():
+            if isinstance(t, CV):
+                t = t.term
+            if isinstance(t, z3.ExprRef) and not (z3.is_const(t) and str(t) == k):
+                alias.append(z3.Const("g!" + k, t.sort()) == t)
+        parts = vc.split_goal(ob.goal, "q")
+        for sfx, g, sk in parts:
+            name = ob.name + sfx
+            hyps = list(ob.hyps) + alias
+            neg = z3.Not(g)
+            gv = vc.ground_version(hyps, g, sk)
+            job = {"case": case.name, "name": name, "kind": ob.kind, "path": ob.path, "expect": "unsat",
+                   "info": ob.info, "timeout": timeout,
+                   "ground": vc.to_smt2(gv, neg) if gv is not None else None,
+                   "full": vc.to_smt2(hyps, neg), "goal": str(g)[:400], "kf": []}
+            for kf in findings:
+                if kf.get("status", "open") != "open":
+                    continue
+                if ob.name not in kf.get("obligations", [kf.get("obligation")]):
+                    continue
+                ns = {k: (v.term if isinstance(v, CV) else v) for k, v in syms.items()}
+                ns.update({"And": z3.And, "Or": z3.Or, "Not": z3.Not, "Implies": z3.Implies,
+                           "Length": z3.Length, "If": z3.If})
+                try:
+                    pred = eval(kf["witness_class"], {"__builtins__": {}}, ns)
+                    job["kf"].append({"id": kf["id"], "smt2": vc.to_smt2(hyps + [z3.Not(zbool(pred))], neg)})
+                except Exception as e:
+                    job["kf"].append({"id": kf["id"], "error": f"witness class not evaluable: {e}"})
+            jobs.append(job)
+    return jobs
 
 
 # --------------------------------------------------------------------------
+# phase 2
 
-def classify_known(rec, cx, syms_by_path, findings):
-    """for every refuted obligation matching a known finding, re-run the query
-    with the recorded witness class excluded; unsat => all witnesses are of the
-    known class"""
-    live = {(ob.name, ob.path): ob for ob in cx.obligations}
-    for o in rec["obligations"]:
-        if o["verdict"] != "refuted" or o["kind"] in ("canary", "vacuity"):
+def _consts_of(assertions):
+    out, seen = {}, set()
+    stack = list(assertions)
+    while stack:
+        t = stack.pop()
+        if t.get_id() in seen:
             continue
-        for kf in findings:
-            if kf.get("status", "open") != "open":
-                continue
-            if o["name"] not in kf.get("obligations", [kf.get("obligation")]):
-                continue
-            ob = live[(o["name"], o["path"])]
-            syms = syms_by_path.get(o["path"], {})
-            ns = {k: (v.term if isinstance(v, CV) else v) for k, v in syms.items()}
-            ns.update({"And": z3.And, "Or": z3.Or, "Not": z3.Not, "Implies": z3.Implies,
-                       "Length": z3.Length, "If": z3.If})
-            try:
-                pred = eval(kf["witness_class"], {"__builtins__": {}}, ns)
-            except Exception as e:
-                o["known_error"] = f"witness class not evaluable: {e}"
-                continue
-            s = z3.Solver()
-            s.set("timeout", 20000)
-            for h in ob.hyps:
-                s.add(h)
-            s.add(z3.Not(ob.goal))
-            s.add(z3.Not(zbool(pred)))
-            r = s.check()
-            if r == z3.unsat:
-                o["known_finding"] = kf["id"]
-            elif r == z3.sat:
-                o["model"] = model_to_dict(s.model(), syms)
-                o["outside_known_class"] = kf["id"]
+        seen.add(t.get_id())
+        if z3.is_const(t) and t.decl().kind() == z3.Z3_OP_UNINTERPRETED:
+            out[str(t)] = t
+        if z3.is_quantifier(t):
+            stack.append(t.body())
+        else:
+            stack.extend(t.children())
+    return out
+
+
+def _model_dict(model, consts):
+    d = {}
+    for k, t in consts.items():
+        if z3.is_array(t):
+            continue
+        try:
+            v = model.eval(t, model_completion=True)
+            if z3.is_int_value(v):
+                d[k] = v.as_long()
+            elif z3.is_true(v):
+                d[k] = True
+            elif z3.is_false(v):
+                d[k] = False
+            elif z3.is_string_value(v):
+                d[k] = v.as_string()
+            elif z3.is_bv_value(v):
+                d[k] = v.as_long()
+            elif z3.is_rational_value(v):
+                d[k] = str(v.as_fraction())
             else:
-                o["known_finding"] = None
-                o["known_undecided"] = kf["id"]
+                d[k] = str(v)[:80]
+        except Exception:
+            pass
+    # ghost aliases g!name -> name
+    for k in list(d):
+        if k.startswith("g!"):
+            d.setdefault(k[2:], d[k])
+    return d
 
 
-def _worker(args):
+def _check_text(txt, timeout_s):
+    s = z3.Solver()
+    s.set("timeout", int(timeout_s * 1000))
+    a = z3.parse_smt2_string(txt)
+    s.add(a)
+    r = s.check()
+    return r, s, a
+
+
+def solve_job(job):
+    t0 = time.time()
+    out = {k: job[k] for k in ("case", "name", "kind", "path", "info")}
+    out["goal"] = job.get("goal")
+    T = job["timeout"]
+    verdict, backend, reason, model = "undecided", None, None, None
+    try:
+        if job["expect"] == "sat":
+            r, s, a = _check_text(job["full"], T)
+            backend = "z3-%s(api)" % z3.get_version_string()
+            verdict = "proved" if r == z3.sat else ("vacuous" if r == z3.unsat else "proved")
+            if r == z3.unknown:
+                reason = "probe unknown (treated as satisfiable): " + s.reason_unknown()
+        else:
+            ground_sat_model = None
+            if job["ground"] is not None:
+                r, s, a = _check_text(job["ground"], max(2.0, T / 2))
+                if r == z3.unsat:
+                    verdict, backend = "proved", "z3-%s(api, ground-instantiated hypotheses)" % z3.get_version_string()
+                elif r == z3.sat:
+                    ground_sat_model = _model_dict(s.model(), _consts_of(a))
+            if verdict != "proved":
+                r, s, a = _check_text(job["full"], T)
+                backend = "z3-%s(api)" % z3.get_version_string()
+                if r == z3.unsat:
+                    verdict = "proved"
+                elif r == z3.sat:
+                    verdict = "refuted"
+                    model = _model_dict(s.model(), _consts_of(a))
+                else:
+                    reason = "z3: " + s.reason_unknown()
+                    first, o, dt = solve.run_cvc5(job["full"], T)
+                    if first == "unsat":
+                        verdict, backend = "proved", "cvc5-1.0.3(cli)"
+                    elif first == "sat" and job["ground"] is None:
+                        verdict, backend = "refuted", "cvc5-1.0.3(cli)"
+                        reason = "cvc5 sat; no model extracted"
+                    else:
+                        reason += " | cvc5: " + (first or "no answer")
+                        if ground_sat_model is not None:
+                            out["candidate_model"] = ground_sat_model
+                            reason += " | ground instance satisfiable (candidate counter-model attached)"
+            if verdict == "refuted":
+                for kf in job.get("kf", []):
+                    if "error" in kf:
+                        out["known_error"] = kf["error"]
+                        continue
+                    r2, s2, a2 = _check_text(kf["smt2"], max(T, 20.0))
+                    if r2 == z3.unsat:
+                        out["known_finding"] = kf["id"]
+                    elif r2 == z3.sat:
+                        model = _model_dict(s2.model(), _consts_of(a2))
+                        out["outside_known_class"] = kf["id"]
+                    else:
+                        out["known_undecided"] = kf["id"]
+    except Exception as e:
+        verdict = "crash"
+        reason = f"{type(e).__name__}: {e}"
+        out["trace"] = traceback.format_exc()[-1500:]
+    out.update({"verdict": verdict, "backend": backend, "reason": reason, "time": round(time.time() - t0, 4)})
+    if model is not None:
+        out["model"] = model
+    if verdict == "proved" and job["expect"] == "unsat":
+        out["smt2"] = (job["ground"] or job["full"])[:2500]
+    return out
+
+
+def _gen_worker(args):
     prop, idx, tier, src_root = args
     try:
         mod = importlib.import_module(f"contracts.{prop}")
         case = mod.CASES[idx]
-        findings = load_findings(prop)
-        rec, cx, syms = run_case(case, tier, src_root)
-        classify_known(rec, cx, syms, findings)
-        rec.pop("_live", None)
-        for o in rec["obligations"]:
-            o.pop("_ob", None)
-        return rec
+        return run_case(case, tier, src_root, load_findings(prop))
     except Exception as e:
-        return {"case": f"{prop}#{idx}", "status": "crash", "error": f"{type(e).__name__}: {e}",
-                "trace": traceback.format_exc()[-3000:], "obligations": [], "paths": 0}
+        return {"case": f"{prop}#{idx}", "target": f"{prop}#{idx}", "status": "crash",
+                "error": f"{type(e).__name__}: {e}", "trace": traceback.format_exc()[-3000:],
+                "obligations": [], "jobs": [], "paths": 0}
 
 
 def load_findings(prop):
@@ -365,7 +408,7 @@ def replay(prop, o, rec, tier):
     safe = "".join(c if c.isalnum() else "_" for c in o["name"])[:120]
     path = os.path.join(out_root, "replays", f"{prop}_{safe}_p{o['path']}.json")
     payload = {"property": prop, "obligation": o["name"], "case": rec["case"],
-               "kind": o["kind"], "path": o["path"], "model": o.get("model", {}),
+               "kind": o["kind"], "path": o["path"], "model": o.get("model") or o.get("candidate_model") or {},
                "goal": o.get("goal"), "info": o.get("info"), "solver": o.get("backend"),
                "solver_output": o.get("reason")}
     replayer = os.path.join(VERIF, "replayers", f"{prop}.py")
@@ -375,8 +418,7 @@ def replay(prop, o, rec, tier):
     if os.path.exists(replayer):
         try:
             p = subprocess.run(["/venv/bin/python", replayer, path], capture_output=True, text=True,
-                               timeout=300, cwd=VERIF,
-                               env=dict(os.environ, PYTHONPATH=os.environ.get("PYTHONPATH", "")))
+                               timeout=300, cwd=VERIF)
             last = [l for l in p.stdout.strip().split("\n") if l.startswith("{")]
             if last:
                 r = json.loads(last[-1])
@@ -402,6 +444,8 @@ def main(argv=None):
     ap.add_argument("-v", action="store_true")
     args = ap.parse_args(argv)
     prop = args.prop
+    if args.src_root:
+        os.environ["VERIF_SRC"] = args.src_root      # replayers and the concrete engine follow
     tier = "thorough" if args.tier == "thorough" else "quick"
     seed = int(os.environ.get("VERIF_SEED", "0"))
     t0 = time.time()
@@ -416,16 +460,35 @@ def main(argv=None):
         print(f"CHECKER-FAILURE property={prop} contract file does not load")
         return 3
     idxs = list(range(len(mod.CASES))) if args.case is None else [args.case]
-    jobs = [(prop, i, tier, args.src_root) for i in idxs]
-    if args.jobs > 1 and len(jobs) > 1:
-        ctxm = mp.get_context("fork")
-        with ctxm.Pool(min(args.jobs, len(jobs))) as pool:
-            recs = pool.map(_worker, jobs, chunksize=1)
+    gen_jobs = [(prop, i, tier, args.src_root) for i in idxs]
+    ctxm = mp.get_context("fork")
+    nproc = max(1, args.jobs)
+    if nproc > 1 and len(gen_jobs) > 1:
+        with ctxm.Pool(min(nproc, len(gen_jobs))) as pool:
+            recs = pool.map(_gen_worker, gen_jobs, chunksize=1)
     else:
-        recs = [_worker(j) for j in jobs]
+        recs = [_gen_worker(j) for j in gen_jobs]
+    t1 = time.time()
+    all_jobs = []
+    for ri, rec in enumerate(recs):
+        for j in rec.pop("jobs", []):
+            j["_rec"] = ri
+            all_jobs.append(j)
+    if nproc > 1 and len(all_jobs) > 1:
+        with ctxm.Pool(min(nproc, len(all_jobs))) as pool:
+            outs = pool.map(solve_job, all_jobs, chunksize=max(1, min(8, len(all_jobs) // (4 * nproc) or 1)))
+    else:
+        outs = [solve_job(j) for j in all_jobs]
+    for j, o in zip(all_jobs, outs):
+        if o["verdict"] == "crash":
+            recs[j["_rec"]]["status"] = "crash"
+            recs[j["_rec"]]["error"] = f"solver job {o['name']}: {o['reason']}"
+        recs[j["_rec"]]["obligations"].append(o)
+    for rec in recs:
+        rec["solve_wall_s"] = round(time.time() - t1, 3)
     from pyvc import report
     bounded = None
-    if hasattr(mod, "bounded"):
+    if hasattr(mod, "bounded") and args.case is None:
         try:
             bounded = mod.bounded(tier, seed)
         except Exception as e:
